@@ -99,11 +99,8 @@ func (l dirItemList) size(joliet bool) sizeBytes {
 			entries = item.dirEntryJoliet
 		}
 
-		for _, entry := range entries {
-			ret += entry.size()
-		}
-
-		ret = ret.sectors().bytes() // directory entries of one directory aligned to sector
+		// every directory starts at sector boundary and occupies integer number of sectors
+		ret += directoryEntriesSize(entries).sectors().bytes()
 	}
 
 	return ret
